@@ -48,14 +48,19 @@ type params struct {
 	// message of the side that speaks is delivered only after it (the epoch
 	// hour changes while the handshake is in flight)
 	rollover bool
-	seed     uint64
+	// bulk > 0 (refserver only): the reference server sends that many payload
+	// bytes right behind its response and seed frame, and the client receives
+	// all of it only after a short first read (the read that completes the
+	// response also brings the data behind it)
+	bulk int
+	seed uint64
 }
 
 func (p params) String() string {
 	return fmt.Sprintf("role=%s legacy=%v iat=%d biased=%v steer=%d refpad=%d chunk=%d rollover=%v seed=%x", p.role, p.legacy, p.iat, p.biased, p.steer, p.refPad, p.chunk, p.rollover, p.seed)
 }
 
-var chunkNames = []string{"all", "1", "31", "33", "1447", "prng"}
+var chunkNames = []string{"all", "1", "31", "33", "1447", "prng", "head-then-all"}
 
 func chunk(i int, seed uint64) memwire.ChunkPolicy {
 	switch i {
@@ -69,6 +74,8 @@ func chunk(i int, seed uint64) memwire.ChunkPolicy {
 		return memwire.Fixed(1447)
 	case 5:
 		return memwire.PRNG(seed, 2000)
+	case 6:
+		return memwire.Script([]int{40 + int(seed%3000)}, memwire.All())
 	}
 	return memwire.All()
 }
@@ -125,7 +132,7 @@ func runConn(c *mon.Case, r *mon.Run, dir string, p params) {
 	c2s, s2c := cw.Out(), sw.Out()
 	realStream, refStream := mon.Stream{Key: p.seed ^ 0xaa}, mon.Stream{Key: p.seed ^ 0xbb}
 	realScript, refScript := sizes(rng, 2+rng.IntN(4)), sizes(rng, 2+rng.IntN(4))
-	wantReal, wantRef := total(realScript), total(refScript)
+	wantReal, wantRef := total(realScript), total(refScript)+p.bulk
 	viol := func(sig, format string, a ...any) {
 		c.Violation(sig, fmt.Sprintf(format, a...)+"; "+p.String(), p.String())
 	}
@@ -185,7 +192,7 @@ func runConn(c *mon.Case, r *mon.Run, dir string, p params) {
 	refApp := func(rc *o4.RefConn, wg *sync.WaitGroup) {
 		wg.Add(2)
 		c.Go(wg.Done, func() {
-			off := 0
+			off := p.bulk // (sent behind the handshake already)
 			wr := mon.NewRand(p.seed ^ 0x77)
 			// packets that carry no payload at all (type payload, length 0) with
 			// every amount of padding incl. none — what the format calls padding,
@@ -389,6 +396,17 @@ func runConn(c *mon.Case, r *mon.Run, dir string, p params) {
 			dd := make(chan struct{})
 			c.Go(func() { close(dd) }, func() { cc, err = dial(cw, args) })
 			cross(hourAtDial)
+			s2c.Pause(false)
+			<-dd
+		} else if p.bulk > 0 {
+			s2c.Pause(true)
+			dd := make(chan struct{})
+			c.Go(func() { close(dd) }, func() { cc, err = dial(cw, args) })
+			<-done // the reference has answered (into the held wire) ...
+			if serr == nil {
+				rc.WriteData(refStream.Bytes(0, p.bulk), 0, 0) // ... and goes on with payload at once
+				r.Count("refserver_bulk_behind_the_handshake", 1)
+			}
 			s2c.Pause(false)
 			<-dd
 		} else {
@@ -608,6 +626,12 @@ func TestCheck(t *testing.T) {
 						r.Case(fmt.Sprintf("conn/%s/legacy%v/iat%d/b%v/pad%d", role, legacy, iat, biased, pm), func(c *mon.Case) {
 							for k := 0; k < nPer*2; k++ {
 								p := params{role: role, legacy: legacy, iat: iat, biased: biased, refPad: -1, chunk: (k + pm) % len(chunkNames), seed: r.Sub("c", role, legacy, iat, biased, pm, k)}
+								if role == "refserver" && (k+pm)%3 == 1 {
+									p.bulk = []int{3000, 9000, 20000}[(k/3+pm)%3]
+									if k%2 == 0 {
+										p.chunk = 6
+									}
+								}
 								switch pm {
 								case 1:
 									p.steer = 1
